@@ -103,11 +103,11 @@ impl Add<Duration> for Time {
     fn add(self, rhs: Duration) -> Self::Output {
         if rhs.nanos().is_negative() {
             Time {
-                inner: self.nanos() - rhs.nanos().unsigned_abs(),
+                inner: self.nanos().saturating_sub(rhs.nanos().unsigned_abs()),
             }
         } else {
             Time {
-                inner: self.nanos() + rhs.nanos().unsigned_abs(),
+                inner: self.nanos().saturating_add(rhs.nanos().unsigned_abs()),
             }
         }
     }
